@@ -532,8 +532,11 @@ def cet(w):
     for T in ('UCet', 'SCet'):
         reg = mreg(T)
         P = MS + T + '>::'
-        w.raw_read(P + 'read_raw', reg, T + '::read_raw')
-        w.raw_write(P + 'write_raw', reg, T + '::write_raw', BV.sym(64, 'v'), BV.sym(64, 'v'))
+        # read_raw / write_raw are private here: checked when present, the public read / write / update rules below are end to end
+        if P + 'read_raw' in I.fn:
+            w.raw_read(P + 'read_raw', reg, T + '::read_raw')
+        if P + 'write_raw' in I.fn:
+            w.raw_write(P + 'write_raw', reg, T + '::write_raw', BV.sym(64, 'v'), BV.sym(64, 'v'))
         outs = w.run(P + 'read', [])
         rets = [o for o in outs if o.kind == 'ret']
         ok = len(rets) == 1 and shape(decode(rets[0])) == [('read', reg)]
